@@ -19,6 +19,7 @@ def run(ctx):
     ctx.rule("C07.R3", "K1+K11", "LengthReader.read is bounded by the remaining length and accounts for what it returned; ChunkedReader stops advancing its parser at the end")
     ctx.rule("C07.R4", "K5", "Body refills only through its reader; it never touches the unreader or the socket")
     ctx.rule("C07.R5", "K10", "buffers whose fill level is read through tell() are created empty (BytesIO(initial) leaves the position at 0)")
+    ctx.rule("C07.R7", "K10", "(= C01.R4) no primitive more lenient than the byte semantics on body data (bytes.splitlines also splits at a bare CR, VT, FF ...)")
     ctx.rule("C07.R6", "K11", "(= C06.R1-R3) the body readers obey the buffer discipline: whole-accumulator searches, exact residues, conserved split pairs")
     r1(ctx)
     r2(ctx)
@@ -32,6 +33,8 @@ def run(ctx):
     a = _MultiAlias(ctx, {"C06.R1": "C07.R6", "C06.R2": "C07.R6", "C06.R3": "C07.R6"})
     c06.r1(a)
     c06.r23(a)
+    from . import c01
+    c01.r4(_MultiAlias(ctx, {"C01.R4": "C07.R7"}))
 
 
 def r5(ctx):
